@@ -9,6 +9,7 @@ activations started so far (the current one included) and idx is the
 step path (tuple) inside the activity.  Payloads hold no addresses / reprs.
 """
 import math
+import weakref
 import usim
 from usim import (time, eternity, instant, Scope, until, Flag, Tracked, Lock, Queue, Channel,
                   StreamClosed, Capacities, Resources, ResourcesUnavailable, Pipe,
@@ -161,8 +162,15 @@ class Interp:
     def serial(self, obj):
         """Small stable number per distinct object (identity without addresses)."""
         ent = self._serials.get(id(obj))
-        if ent is None or ent[1] is not obj:
-            ent = (len(self._serials) + 1, obj)
+        if ent is None or ent[1]() is not obj:
+            # (a weak reference where possible: the harness must not keep failures - and through their tracebacks and
+            #  contexts the frames they unwound - alive longer than the program does)
+            self._nserials = getattr(self, '_nserials', 0) + 1
+            try:
+                ref = weakref.ref(obj)
+            except TypeError:
+                ref = (lambda o=obj: o)
+            ent = (self._nserials, ref)
             self._serials[id(obj)] = ent
         return ent[0]
 
